@@ -10,7 +10,7 @@ hash), all loop-free over arbitrary states; the vptr vectors are Skolem arrays
 import re
 
 from engine import extract as X
-from engine.core import Job
+from engine.core import Job, syntactic_frame_job
 from units import hashing as H
 
 REL_V = 'include/yorel/yomm2/policies/vptr_vector.hpp'
@@ -472,6 +472,10 @@ def map_jobs():
              X.Rule('type_id_begin()', r'(\w+)->type_id_begin\(\)', r'TYPE_ID_BEGIN(\1)'),
              X.Rule('type_id_end()', r'(\w+)->type_id_end\(\)', r'TYPE_ID_END(\1)'),
              X.Rule('iter->vptr()', r'(\w+)->vptr\(\)', r'CLASS_VPTR(\1)')] + X.COMMON_RULES
+    exd = X.find_function(REL_M, r'static\s+auto\s+dynamic_vptr\s*\(\s*const\s+Class&\s+arg\s*\)')
+    bad_map = X.nonlocal_assignments(exd.body, [])
+    if bad_map:
+        return [syntactic_frame_job('vptrs', 'frame-map-dynamic_vptr', 'vptr_map::dynamic_vptr', bad_map, ['C16', 'C01'])]
     X.apply_rules(ex, rules)
     H.clean('vptr_map::publish_vptrs', ex.body)
     bl = blocks_of(ex.body)
@@ -481,7 +485,6 @@ def map_jobs():
     if ex.body[:o[0]].strip() or ex.body[o[2] + 1:i[0]].strip() or ex.body[i[3] + 1:o[3]].strip() or ex.body[o[3] + 1:].strip():
         raise X.ExtractionBroken('vptr_map::publish_vptrs: statements outside the innermost loop body')
     body = ex.body[i[2] + 1:i[3]]
-    exd = X.find_function(REL_M, r'static\s+auto\s+dynamic_vptr\s*\(\s*const\s+Class&\s+arg\s*\)')
     X.apply_rules(exd, [X.Rule('Policy::dynamic_type', r'Policy::dynamic_type\(\s*arg\s*\)', 'policy_dynamic_type(arg_p)', 1, 1),
                         X.method_call(r'(?<![\w:])vptrs', 'find', lambda o, a: 'yv_map_find(&%s, %s)' % (o, a[0]), 'map.find', 1)] + X.COMMON_RULES)
     H.clean('vptr_map::dynamic_vptr', exd.body)
@@ -532,6 +535,11 @@ def jobs(tier):
                                    props=['C05', 'C10', 'C07', 'C09'], timeout=600))
         for checked in ((0, 1) if hsh else (0,)):
             cfg = {'hash': bool(hsh), 'indirect': False}
+            exd0 = X.find_function(REL_V, r'static\s+const\s+std::uintptr_t\*\s+dynamic_vptr\s*\(\s*const\s+Class&\s+arg\s*\)')
+            bad = X.nonlocal_assignments(exd0.body, ['index'])
+            if bad:
+                out.append(syntactic_frame_job('vptrs', 'frame-dynamic_vptr-hash%d-checked%d' % (hsh, checked), 'vptr_vector::dynamic_vptr', bad, ['C16', 'C01']))
+                continue
             exd = make_dyn(cfg)
             c = H.STATICS + H.GHOST + VSHIM + DYN.replace('@BODY@', exd.body)
             out.append(Job(unit='vptrs', config='dynamic_vptr-hash%d-checked%d' % (hsh, checked), c_text=c, entry='h_dynamic_vptr',
